@@ -17,12 +17,25 @@ func newBig(n int64) *big.Int { return big.NewInt(n) }
 // ---------- modification sets ----------
 
 type ModSet struct {
-	all   bool
-	heap  map[string]*Sort
-	cells map[int]bool
+	all    bool
+	heap   map[string]*Sort    // whole map havocked
+	cells  map[int]bool
+	points map[string][]string // map -> refs whose entry alone may change
+	psort  map[string]*Sort
+	cellPts map[string][]int   // map -> cells holding the only object written (loop scans)
 }
 
-func NewModSet() *ModSet { return &ModSet{heap: map[string]*Sort{}, cells: map[int]bool{}} }
+func NewModSet() *ModSet {
+	return &ModSet{heap: map[string]*Sort{}, cells: map[int]bool{}, points: map[string][]string{}, psort: map[string]*Sort{}, cellPts: map[string][]int{}}
+}
+
+// addPoint: only the entry of ref in the named maps may change.
+func (ms *ModSet) addPoint(tmp *ModSet, ref string) {
+	for n, s := range tmp.heap {
+		ms.points[n] = append(ms.points[n], ref)
+		ms.psort[n] = s
+	}
+}
 
 func (x *Exec) addTypeStoreMods(ms *ModSet, kind AK, owner types.Type, field int, t types.Type) {
 	switch kind {
@@ -49,7 +62,14 @@ func (x *Exec) addTypeStoreMods(ms *ModSet, kind AK, owner types.Type, field int
 	case AKPtr:
 		if isStructT(t) {
 			su := t.Underlying().(*types.Struct)
+			ext := false
+			if n, ok := t.(*types.Named); ok && n.Obj().Pkg() != nil && !inMod(n.Obj().Pkg().Path(), modulePath) {
+				ext = true // unexported fields of foreign structs are invisible to bluge code
+			}
 			for i := 0; i < su.NumFields(); i++ {
+				if ext && !su.Field(i).Exported() {
+					continue
+				}
 				x.addTypeStoreMods(ms, AKField, t, i, su.Field(i).Type())
 			}
 			return
@@ -80,10 +100,29 @@ func (x *Exec) storeMods(fr *Frame, addr ssa.Value, ms *ModSet) {
 	case *ssa.FieldAddr:
 		pt := a.X.Type().Underlying().(*types.Pointer).Elem()
 		su := pt.Underlying().(*types.Struct)
-		x.addTypeStoreMods(ms, AKField, pt, a.Field, su.Field(a.Field).Type())
+		ft := su.Field(a.Field).Type()
+		if c, ok := x.loadedCell(fr, a.X); ok && !isStructT(ft) && !isArrayT(ft) {
+			tmp := NewModSet()
+			x.addTypeStoreMods(tmp, AKField, pt, a.Field, ft)
+			for n, s := range tmp.heap {
+				ms.cellPts[n] = append(ms.cellPts[n], c)
+				ms.psort[n] = s
+			}
+			return
+		}
+		x.addTypeStoreMods(ms, AKField, pt, a.Field, ft)
 	case *ssa.IndexAddr:
 		switch t := a.X.Type().Underlying().(type) {
 		case *types.Slice:
+			if c, ok := x.loadedCell(fr, a.X); ok {
+				tmp := NewModSet()
+				x.addTypeStoreMods(tmp, AKElem, nil, 0, t.Elem())
+				for n, s := range tmp.heap {
+					ms.cellPts[n] = append(ms.cellPts[n], c)
+					ms.psort[n] = s
+				}
+				return
+			}
 			x.addTypeStoreMods(ms, AKElem, nil, 0, t.Elem())
 		case *types.Pointer:
 			x.addTypeStoreMods(ms, AKElem, nil, 0, t.Elem().Underlying().(*types.Array).Elem())
@@ -102,6 +141,26 @@ func (x *Exec) storeMods(fr *Frame, addr ssa.Value, ms *ModSet) {
 			x.addTypeStoreMods(ms, AKPtr, nil, 0, pt.Elem())
 		}
 	}
+}
+
+// loadedCell: v is a load of a local cell of the frame (`*t` with t a cell alloc).
+func (x *Exec) loadedCell(fr *Frame, v ssa.Value) (int, bool) {
+	if fr == nil {
+		return 0, false
+	}
+	u, ok := v.(*ssa.UnOp)
+	if !ok || u.Op != token.MUL {
+		return 0, false
+	}
+	a, ok := u.X.(*ssa.Alloc)
+	if !ok {
+		return 0, false
+	}
+	ad, ok := fr.addrs[a]
+	if !ok || ad.K != AKCell {
+		return 0, false
+	}
+	return ad.Cell, true
 }
 
 func (x *Exec) instrMods(fr *Frame, in ssa.Instruction, ms *ModSet, depth int) {
@@ -132,7 +191,30 @@ func (x *Exec) instrMods(fr *Frame, in ssa.Instruction, ms *ModSet, depth int) {
 
 func (x *Exec) ghostMods(ms *ModSet) {}
 
-func (x *Exec) modifiesToSet(spec *FuncSpec, ms *ModSet, argTypes map[string]types.Type) {
+// modifiesToSet translates the modifies clauses of a contract. env (optional)
+// gives the argument values, so that `p.f` / `elems(s)` / `elems(p.f)` become
+// point updates; without env (loop scans) they widen to the whole map.
+func (x *Exec) modifiesToSet(spec *FuncSpec, ms *ModSet, argTypes map[string]types.Type, env map[string]Val, st *State) {
+	if len(spec.Modifies) == 0 && !spec.Pure && !spec.Ext && !spec.Iface {
+		// bluge function under contract that does not state its frame: anything may change
+		ms.all = true
+		return
+	}
+	fieldOf := func(t types.Type, f string) (types.Type, int, types.Type) {
+		p, ok := t.Underlying().(*types.Pointer)
+		if !ok {
+			return nil, -1, nil
+		}
+		su, ok := p.Elem().Underlying().(*types.Struct)
+		if !ok {
+			return nil, -1, nil
+		}
+		idx, _ := findField(su, f)
+		if idx < 0 {
+			return nil, -1, nil
+		}
+		return p.Elem(), idx, su.Field(idx).Type()
+	}
 	for _, m := range spec.Modifies {
 		m = strings.TrimSpace(m)
 		switch {
@@ -149,25 +231,61 @@ func (x *Exec) modifiesToSet(spec *FuncSpec, ms *ModSet, argTypes map[string]typ
 			}
 			if strings.HasPrefix(m, "elems(") {
 				nm := strings.TrimSuffix(strings.TrimPrefix(m, "elems("), ")")
-				if t, ok := argTypes[nm]; ok {
-					if sl, ok := t.Underlying().(*types.Slice); ok {
-						x.addTypeStoreMods(ms, AKElem, nil, 0, sl.Elem())
+				parts := strings.Split(nm, ".")
+				t, ok := argTypes[parts[0]]
+				var v Val
+				hasV := false
+				if env != nil {
+					v, hasV = env[parts[0]]
+				}
+				if ok && len(parts) == 2 {
+					owner, idx, ft := fieldOf(t, parts[1])
+					if owner != nil {
+						if hasV && st != nil {
+							v = x.loadAtQuiet(st, Addr{K: AKField, Ref: v.One(), ST: owner, Field: idx, T: ft})
+						} else {
+							hasV = false
+						}
+						t = ft
+					} else {
+						ok = false
 					}
 				}
+				if ok {
+					if sl, ok := t.Underlying().(*types.Slice); ok {
+						tmp := NewModSet()
+						x.addTypeStoreMods(tmp, AKElem, nil, 0, sl.Elem())
+						if hasV {
+							ms.addPoint(tmp, v.L[0])
+						} else {
+							for n, s := range tmp.heap {
+								ms.heap[n] = s
+							}
+						}
+						continue
+					}
+				}
+				x.bindingFailure(fmt.Sprintf("modifies clause %q of %s does not resolve", m, spec.Key))
 				continue
 			}
 			// p.f  or T.f
 			parts := strings.Split(m, ".")
 			if len(parts) == 2 {
-				var st types.Type
 				if t, ok := argTypes[parts[0]]; ok {
-					if p, ok := t.Underlying().(*types.Pointer); ok {
-						st = p.Elem()
+					owner, idx, ft := fieldOf(t, parts[1])
+					if owner != nil {
+						tmp := NewModSet()
+						x.addTypeStoreMods(tmp, AKField, owner, idx, ft)
+						if v, ok := env[parts[0]]; ok && env != nil && !isStructT(ft) && !isArrayT(ft) {
+							ms.addPoint(tmp, v.One())
+						} else {
+							for n, s := range tmp.heap {
+								ms.heap[n] = s
+							}
+						}
+						continue
 					}
-				} else {
-					st = x.w.lookupType(spec, parts[0])
-				}
-				if st != nil {
+				} else if st := x.w.lookupType(spec, parts[0]); st != nil {
 					if su, ok := st.Underlying().(*types.Struct); ok {
 						if idx, _ := findField(su, parts[1]); idx >= 0 {
 							x.addTypeStoreMods(ms, AKField, st, idx, su.Field(idx).Type())
@@ -197,7 +315,7 @@ func (x *Exec) callMods(fr *Frame, c *ssa.CallCommon, ms *ModSet, depth int) {
 		return
 	}
 	callee, spec, _ := x.resolveCallee(fr, c)
-	if spec != nil && !spec.Inline {
+	if spec != nil && !spec.Inline && !spec.Opaque {
 		at := map[string]types.Type{}
 		names := x.paramNames(spec, callee, c)
 		args := x.callArgValues(c)
@@ -206,7 +324,7 @@ func (x *Exec) callMods(fr *Frame, c *ssa.CallCommon, ms *ModSet, depth int) {
 				at[n] = args[i].Type()
 			}
 		}
-		x.modifiesToSet(spec, ms, at)
+		x.modifiesToSet(spec, ms, at, nil, nil)
 		return
 	}
 	if callee != nil && x.canInline(callee, depth) {
@@ -276,6 +394,38 @@ func (x *Exec) havoc(fr *Frame, st *State, ms *ModSet, prefix string) {
 		x.heapVar(n, s)
 		st.heap[n] = x.vc.Declare(n+"@"+prefix, s)
 	}
+	for n, cs := range ms.cellPts {
+		if _, whole := ms.heap[n]; whole || ms.all {
+			continue
+		}
+		for _, c := range cs {
+			v, live := st.cells[c]
+			if ms.cells[c] || !live || len(v.L) == 0 || v.S[0].K != SRef {
+				// the variable holding the object changes in the region: any object may be written
+				ms.heap[n] = ms.psort[n]
+				break
+			}
+		}
+		if _, whole := ms.heap[n]; whole {
+			x.heapVar(n, ms.psort[n])
+			st.heap[n] = x.vc.Declare(n+"@"+prefix, ms.psort[n])
+			continue
+		}
+		for _, c := range cs {
+			ms.points[n] = append(ms.points[n], st.cells[c].L[0])
+		}
+	}
+	for n, refs := range ms.points {
+		if _, whole := ms.heap[n]; whole || ms.all {
+			continue
+		}
+		s := ms.psort[n]
+		cur := x.heapGet(st, n, s)
+		for _, r := range refs {
+			cur = "(store " + cur + " " + r + " " + x.vc.Declare(n+"@"+prefix+".pt", s.Val) + ")"
+		}
+		x.heapSet(st, n, s, cur)
+	}
 	nn := x.vc.Declare("now", sortInt)
 	x.assumeIn(st, "(>= "+nn+" "+st.now+")")
 	st.now = nn
@@ -339,11 +489,11 @@ func (x *Exec) inModule(f *ssa.Function) bool {
 	}
 	if p == nil {
 		if f.Object() != nil && f.Object().Pkg() != nil {
-			return strings.HasPrefix(f.Object().Pkg().Path(), x.w.modPath)
+			return inMod(f.Object().Pkg().Path(), x.w.modPath)
 		}
 		return false
 	}
-	return strings.HasPrefix(p.Pkg.Path(), x.w.modPath)
+	return inMod(p.Pkg.Path(), x.w.modPath)
 }
 
 func (x *Exec) canInline(f *ssa.Function, depth int) bool {
@@ -539,7 +689,7 @@ func (x *Exec) execCall(fr *Frame, st *State, instr ssa.Instruction, c *ssa.Call
 			return
 		}
 	}
-	if spec != nil && !spec.Inline {
+	if spec != nil && !spec.Inline && !spec.Opaque {
 		setRes(x.applyContract(fr, st, instr, callee, spec, c, args))
 		return
 	}
@@ -613,7 +763,7 @@ func (x *Exec) applyContract(fr *Frame, st *State, instr ssa.Instruction, callee
 		x.assumeIn(st, v.One())
 	}
 	ms := NewModSet()
-	x.modifiesToSet(spec, ms, at)
+	x.modifiesToSet(spec, ms, at, env, st)
 	if !spec.Pure || len(ms.heap) > 0 || ms.all {
 		x.havoc(fr, st, ms, "c")
 	}
@@ -1001,8 +1151,92 @@ func (x *Exec) checkEnsures(fr *Frame, st *State, out Val) {
 		}
 		x.obligeIn(st, "ensures", e.Name(), v.One(), "")
 	}
+	for _, e := range spec.Exits {
+		if !x.clauseActive(e) {
+			continue
+		}
+		c2 := x.ctxFor(fr, st)
+		for k, v := range names {
+			if _, isParam := fr.params[k]; isParam {
+				if _, isLocal := c2.lookupLocal(k); isLocal {
+					continue // parameters denote their current value here
+				}
+			}
+			c2.names[k] = v // results denote the returned values
+		}
+		v, err := c2.eval(e.E, sortBool)
+		if err != nil && strings.Contains(err.Error(), "unknown identifier") {
+			// a local of the clause is not in scope at this return: the clause does not apply here,
+			// but it has to apply at some return (checked after the body)
+			continue
+		}
+		if err != nil || len(v.L) != 1 || v.S[0].K != SBool {
+			x.bindingFailure(fmt.Sprintf("exit %q: %v", e.Src, err))
+			continue
+		}
+		if x.exitHits == nil {
+			x.exitHits = map[string]int{}
+		}
+		x.exitHits[e.Name()]++
+		x.obligeIn(st, "exit", e.Name(), v.One(), "")
+	}
 	if spec.Lockset || x.lockset {
 		x.checkLocksBalanced(fr, st)
+	}
+	x.checkFrame(fr, st)
+}
+
+// checkFrame: what a function with a stated frame (modifies / pure) leaves
+// unchanged. For every heap map the body changed: entries of objects that
+// existed at entry are unchanged, except the points / maps listed.
+func (x *Exec) checkFrame(fr *Frame, st *State) {
+	spec := fr.spec
+	if len(spec.Modifies) == 0 && !spec.Pure {
+		return
+	}
+	if spec.AssumeFrame {
+		x.assume1("frame of " + spec.Key + " assumed, not checked: it modifies only what its modifies clause lists and objects it allocates")
+		return
+	}
+	at := map[string]types.Type{}
+	for k, v := range fr.params {
+		if v.GT != nil {
+			at[k] = v.GT
+		}
+	}
+	ms := NewModSet()
+	x.modifiesToSet(spec, ms, at, fr.params, fr.entry)
+	if ms.all {
+		return
+	}
+	x.birth()
+	for _, n := range sortedKeys(st.heap) {
+		cur := st.heap[n]
+		old := x.heapGet(fr.entry, n, x.heapSorts[n])
+		if cur == old {
+			continue
+		}
+		if _, whole := ms.heap[n]; whole {
+			continue
+		}
+		s := x.heapSorts[n]
+		if s.K != SArr {
+			x.obligeIn(st, "frame", n+" unchanged", eq(cur, old), "")
+			continue
+		}
+		qn := fmt.Sprintf("q!r!%d", x.nextID())
+		var exc []string
+		for _, r := range ms.points[n] {
+			exc = append(exc, not(eq(qn, r)))
+		}
+		var guard string
+		if s.Key.K == SRef {
+			guard = and(append(exc, "(> "+qn+" 0)", "(<= (birth "+qn+") "+x.entryNow+")")...)
+		} else {
+			guard = and(exc...)
+		}
+		goal := "(forall ((" + qn + " " + s.Key.SMT() + ")) " + implies(guard, eq("(select "+cur+" "+qn+")", "(select "+old+" "+qn+")")) + ")"
+		x.obligeIn(st, "frame", strings.TrimPrefix(n, "H$")+" of pre-existing objects unchanged", goal, "")
 	}
 }
 
@@ -1031,7 +1265,7 @@ func (x *Exec) applyEventSpec(fr *Frame, st *State, sp *FuncSpec, names map[stri
 		x.assumeIn(st, v.One())
 	}
 	ms := NewModSet()
-	x.modifiesToSet(sp, ms, nil)
+	x.modifiesToSet(sp, ms, nil, nil, nil)
 	if len(ms.heap) > 0 {
 		x.havoc(fr, st, ms, "ev")
 	}
@@ -1171,3 +1405,5 @@ func (x *Exec) checkLocksBalanced(fr *Frame, st *State) {
 		x.obligeIn(st, "lockset", "locks balanced at return ("+nm+")", eq(cur, old), "")
 	}
 }
+
+func inMod(pkg, mod string) bool { return pkg == mod || strings.HasPrefix(pkg, mod+"/") }
